@@ -65,7 +65,7 @@ MAX_LISTED_EXPLAINED = 400  # per worker: explained (known-defect) cases written
 
 BOUNDS = {
     "quick": "every history of length <=3 over the name groups {a-b,a_b} and {plain}, and of length <=2 over {x?,x__Q__}, "
-    "{print,print_}, {class,v',plain}; alphabet of a group of k names: 4k defs (plain/dynamic/redef/private) + k "
+    "{print,print_}, {class,v',plain}; alphabet of a group of k names: 4k defs (plain/dynamic/redef/private) + k nested defs ((((fn [] (def n v0) (fn [] (def n v))))), at most one per history) + k "
     "alter-var-roots + k refers + in-ns + require (enabled operations only); each history under direct linking and under "
     "use-var-indirection, every read compiled with inline-functions on and off; all spellings of all group names read after "
     "every history",
@@ -130,6 +130,7 @@ class Model:
         self.linked = set()  # namespaces whose module holds the other namespace's module (require or refer ran)
         self.globs = {}  # (ns, munged) -> (value, name)   last def stored under that Python global
         self.altered = False
+        self.nested_used = False
         self.step = 0
 
     def resolve(self, ns, n):
@@ -143,6 +144,10 @@ class Model:
         for n in self.names:
             for f in FLAGS:
                 ops.append(("def", n, f))
+            if not self.nested_used:
+                # a def executed inside a function that is itself created by a function def'ing the same name first: the
+                # value last given is the inner one (at most one such step per history, to keep the alphabet small)
+                ops.append(("def", n, "nested"))
         for n in self.names:
             if self.resolve(c, n) is not None:
                 ops.append(("alter", n))
@@ -163,7 +168,10 @@ class Model:
         k = op[0]
         if k == "def":
             v = self.value_of("def")
-            self.vars[(c, op[1])] = {"val": v, "root": v, "flags": frozenset([op[2]])}
+            flag = op[2]
+            if flag == "nested":
+                flag, self.nested_used = "plain", True
+            self.vars[(c, op[1])] = {"val": v, "root": v, "flags": frozenset([flag])}
             self.globs[(c, munge(op[1]))] = (v, op[1])
         elif k == "alter":
             t = self.resolve(c, op[1])
@@ -185,6 +193,8 @@ class Model:
     def form(self, op, nsn):
         c, o = self.cur, 1 - self.cur
         k = op[0]
+        if k == "def" and op[2] == "nested":
+            return "(((fn [] (def %s %d) (fn [] (def %s %d)))))" % (op[1], self.value_of("def") + 2, op[1], self.value_of("def"))
         if k == "def":
             meta = "" if op[2] == "plain" else "^:%s " % op[2]
             return "(def %s%s %d)" % (meta, op[1], self.value_of("def"))
